@@ -1084,3 +1084,35 @@ Proof.
   intros s h i ((Ht & Hsh & Hwf & Hc & _) & _) Hi Hn.
   rewrite Hc by assumption. unfold s_cell. rewrite Ht. apply spec_unwritten_is_zero. assumption.
 Qed.
+
+(** * Typed container routes *)
+
+(** the shape a non-scalar container hands to the library is its extents, for every element type
+    (the pinned multi_array traits cast each extent to the ELEMENT type instead) *)
+Theorem route_shape_exact : forall r ext, r <> RScalar -> route_shape r ext = ext.
+Proof. intros r ext H. destruct r; try reflexivity. contradiction. Qed.
+
+(** whole-array set through any route, then a whole read: the values come back and the extent is
+    the container's *)
+Theorem write_all_read_back : forall a sh vals a',
+  wf a -> shape_ok sh -> write_all false a sh vals = Ok (a', Ok tt) ->
+  a_shape a' = sh /\ read_slab a' [] sh = Ok vals.
+Proof.
+  intros a sh vals a' Hwf Hok H. unfold write_all in H.
+  destruct (set_extent false a sh) as [a1|e|w] eqn:He; cbn [bind] in H; try discriminate.
+  destruct (write_slab false a1 [] sh vals) as [a2|e|w] eqn:Hw; try discriminate.
+  inversion H; subst a2.
+  destruct (set_extent_get _ _ _ Hok He) as (Hsh1 & _ & Hwf1 & _).
+  destruct (write_slab_get _ _ _ _ _ Hwf1 Hw) as (Hsh2 & _).
+  split; [congruence|]. apply (read_write_same a1); assumption.
+Qed.
+
+Corollary typed_whole_round_trip : forall r ext vals a a' o,
+  r <> RScalar -> wf a -> shape_ok ext ->
+  route_op r (a_shape a) (TSetAll ext vals) = Ok o ->
+  o = OWriteAll ext vals /\
+  (write_all false a ext vals = Ok (a', Ok tt) -> a_shape a' = ext /\ read_slab a' [] ext = Ok vals).
+Proof.
+  intros r ext vals a a' o Hr Hwf Hok H. cbn [route_op] in H. rewrite (route_shape_exact _ _ Hr) in H.
+  inversion H. split; [reflexivity|]. intro Hw. eapply write_all_read_back; eassumption.
+Qed.
